@@ -1196,6 +1196,16 @@ def ec4(repo: Repo) -> RuleResult:
         if len(copies) != 1:
             continue  # EC3 reports this
         stage = copies[0].args[2] if enc else copies[0].args[1]
+        # the staged bytes are copied for exactly the field's nbits, between the stream at the cursor and the
+        # staging buffer at bit 0
+        cargs = [show(x) if hasattr(x, "terms") else str(x) for x in copies[0].args]
+        res.inst(part="staging-copy", encode=enc, call=cargs)
+        if len(cargs) == 5:
+            want_c = [pnbits, None, None, "cur" if enc else "0", "0" if enc else "cur"]
+            if cargs[0] != want_c[0]:
+                res.bad(Finding("EC4", C_RT, fn.lineno, "BpEndecodeBaseType", f"BpCopyBufferBits({', '.join(cargs)})", f"big-endian build, {'encode' if enc else 'decode'}: `{cargs[0]}` bits are copied between the stream and the staging buffer, not the field's `{pnbits}`: the spare bits of the storage reach the bits of the following fields / bytes behind the message", witness="uint3 followed by another field on a big-endian build", tag=f"be:staging:nbits:{'enc' if enc else 'dec'}"))
+            elif cargs[3] != want_c[3] or cargs[4] != want_c[4]:
+                res.bad(Finding("EC4", C_RT, fn.lineno, "BpEndecodeBaseType", f"BpCopyBufferBits({', '.join(cargs)})", f"big-endian build, {'encode' if enc else 'decode'}: the bit offsets of the copy are ({cargs[3]}, {cargs[4]}), expected ({want_c[3]}, {want_c[4]}): stream at the cursor, staging buffer at bit 0", tag=f"be:staging:offsets:{'enc' if enc else 'dec'}"))
         sa_ = single_atom(stage)
         if sa_ is None or sa_[0] != "arr":
             res.bad(Finding("EC4", C_RT, fn.lineno, "BpEndecodeBaseType", show(stage), "big-endian build: the bits are not copied through a local staging buffer: the value's bytes reach the wire in host order", witness="uint32 on a big-endian host: the wire bytes come out reversed", tag="be:staging:buffer"))
@@ -1596,6 +1606,54 @@ def cc4(repo: Repo) -> RuleResult:
                     res.bad(Finding("CC4", fi.rel, fi.node.lineno, qual, f"{mname}({', '.join(args)})", f"argument {k + 1} carries `{r}` but macro parameter {k + 1} is `{pn}`", witness="generated descriptors carry swapped nbits / size / extensible / capacity", tag=f"{qual}:{k}"))
                 elif defect:
                     res.bad(Finding("CC4", fi.rel, fi.node.lineno, qual, args[k], defect, witness="data pointers of array elements advance by a wrong stride / the 16-bit prefix carries a wrong size", tag=f"{qual}:{r}"))
+    # the generated functions hand their work to the runtime on every path: a call of BpEndecode* / BpJsonFormat* /
+    # a generated processor that some path of the emitting method leaves out is a definition whose bits are not
+    # processed (an empty extensible message still has its 16-bit prefix)
+    try:
+        import re as _re
+
+        from .emit import block_flow, pushed
+        from .normal import V as _Vd
+
+        DELEG = _re.compile(r"\bBp(Endecode|JsonFormat)\w*\(|\(\(void \*\)m, &ctx\)")
+        n_deleg = 0
+        for relsfx_ in ("impls/c/renderer_c.py",):
+            mod_ = m.mod(relsfx_)
+            for ci in mod_.classes.values():
+                for meth in ("render", "before", "after"):
+                    fi_d = m.lookup(ci, meth)
+                    if fi_d is None or fi_d.cls is None or not fi_d.cls.rel.endswith(relsfx_):
+                        continue
+                    try:
+                        flow_d = block_flow(repo, ci.name, relsfx_, "CFormatter", "impls/c/formatter.py", {}, keep=tuple(sorted({n_ for k_ in m.mro(m.cls("CFormatter", "impls/c/formatter.py")) for n_ in k_.methods if n_.startswith("format_")})))
+                        paths_d = [p_ for p_ in flow_d.run(fi_d.node, {"self": _Vd("self")}) if p_.done != "raise"]
+                    except Inconclusive:
+                        continue
+                    per_path = [[t_ for _i, t_ in pushed(p_) if DELEG.search(t_)] for p_ in paths_d]
+                    if not any(per_path):
+                        continue
+                    n_deleg += 1
+                    res.inst(part="delegation", site=f"{ci.name}.{meth}", calls=sorted({t_ for x_ in per_path for t_ in x_})[:2], paths=len(paths_d))
+                    missing = [p_ for p_, x_ in zip(paths_d, per_path) if not x_]
+                    if missing:
+                        res.bad(Finding("CC4", fi_d.rel, fi_d.node.lineno, f"{ci.name}.{meth}", sorted({t_ for x_ in per_path for t_ in x_})[0], f"the call into the runtime is left out on the path under {missing[0].guard_text()}: the generated function does nothing for such a definition although its bits (the 16-bit prefix of an extensible message, the processors of its fields) are part of the layout", witness="message Reserved' {} as a field of another message", tag=f"{ci.name}.{meth}:conditional-delegation"))
+                    # a wrapper that returns no wrapped block on some path emits the frame without the descriptors
+                    if meth == "after":
+                        wr_ = m.lookup(ci, "wraps")
+                        if wr_ is not None and wr_.cls is not None and wr_.cls.rel.endswith(relsfx_):
+                            try:
+                                wp_ = [p_ for p_ in flow_d.run(wr_.node, {"self": _Vd("self")}) if p_.done == "return"]
+                                from .pyflow import single_atom as _sad
+
+                                none_ = [p_ for p_ in wp_ if p_.ret is None or (_sad(p_.ret) is not None and _sad(p_.ret)[0] == "none")]
+                                if none_ and wp_:
+                                    res.bad(Finding("CC4", wr_.rel, wr_.node.lineno, f"{ci.name}.wraps", "", f"wraps() returns no block on the path under {none_[0].guard_text()}: the function is emitted without the descriptor it hands to the runtime", witness="message Reserved' {} as a field of another message", tag=f"{ci.name}.wraps:none"))
+                            except Inconclusive:
+                                pass
+        if n_deleg < 4:
+            res.unsure(f"CC4: only {n_deleg} generated functions delegating to the runtime were found (6 confirmed by hand)")
+    except Inconclusive as e:
+        res.unsure(f"CC4: delegation: {e}")
     # field descriptor item: fds[index of the item] = BpMessageFieldDescriptor((void *)&(m->field), bp type of the same field, name of the same field)
     fi = m.func("impls/c/renderer_c.py", "BlockMessageProcessorFieldItem.render")
     res.inst(part="template", site=fi.qual, what="BpMessageFieldDescriptor(data, type, name)")
